@@ -104,8 +104,8 @@ theorem roomWF : RoomWF store sets chains c := by
   · exact ⟨t1, by rfl, ⟨by decide +kernel, by decide +kernel⟩, by rfl⟩
   · exact ⟨t2, by rfl, ⟨by decide +kernel, by decide +kernel⟩, by rfl⟩
 
-/-- The witness room satisfies every hypothesis of the refinement theorems. -/
-theorem specWF : SpecWF params store sets chains c where
+/-- The witness room satisfies every room hypothesis of the refinement theorems. -/
+theorem roomOk : RoomOk store sets chains c where
   setsWF := setsWF
   chainsNodup := by decide +kernel
   room := roomWF
@@ -124,7 +124,9 @@ theorem specWF : SpecWF params store sets chains c where
     intro s hs k v hg
     have hall : ∀ s ∈ sets, ∀ kv ∈ s, (fetchOf store kv.2).isSome = true := by decide +kernel
     exact hall s hs (k, v) (AL.get_some_mem hg)
-  authLocal := authLocal_realParams _ (by decide)
+
+theorem specWF : SpecWF params store sets chains c :=
+  { roomOk with authLocal := authLocal_realParams _ (by decide) }
 
 /-- The specification resolves the topic to `$t2` (sent under the power-levels event) … -/
 theorem spec_topic : topicOf (resolveV2 params store sets chains) = some (bs "$t2") := by
